@@ -332,3 +332,14 @@ func (c *Ctx) retPos(fr *Frame, ret *ast.ReturnStmt) string {
 	}
 	return c.P.posOf(fr.Fn.Body.Rbrace)
 }
+
+// keys returns the keys present in the map.
+func (s kv) keys() []string {
+	var out []string
+	for _, p := range strings.Split(string(s), ";") {
+		if i := strings.Index(p, "="); i > 0 {
+			out = append(out, p[:i])
+		}
+	}
+	return out
+}
